@@ -139,7 +139,27 @@ def check_function(res: Result, name: str, fn_ast: L.Fn, allf, compiled: dict, w
     res.add(ob)
 
 
+def _when_job(job):
+    """first-match `when` over overlapping clause lists: the dynamic leg of C07's hand-picked matrices (same machinery)"""
+    _, tier, idx, depth, width = job
+    from props import c07
+    sub = Result("C01", tier, 0, "translation_validation")
+    for j, (t, pats) in enumerate(c07.fixed_matrices()):
+        if j % 6 == idx:
+            c07.check_matrix(sub, f"when/{j}", t, pats, depth, max(width, c07.WIDTH))
+    res = Result("C01", tier, 0, "translation_validation")
+    for ob in sub.obligations:
+        if "/run" in ob.name:
+            res.add(ob)
+    res.mismatches = sub.mismatches
+    res.extra["programs"] = len(res.obligations)
+    res.extra["disagreements_checked"] = sub.extra.get("disagreements_checked", 0)
+    return res
+
+
 def _seed_job(job):
+    if job[0] == "when":
+        return _when_job(job)
     seed, tier, nfns, edepth, depth, width = job
     res = Result("C01", tier, seed, "translation_validation")
     t0 = time.time()
@@ -190,7 +210,12 @@ def run(tier: str, seed: int, only=None) -> Result:
     seeds = ["probe"] + [seed * 1000 + i for i in range(nmods)]
     if only:
         seeds = ["probe"] if only == "probe" else [int(only)]
-    U.merge(res, U.pmap(_seed_job, [(s, tier, nfns, edepth, depth, width) for s in seeds]))
+    jobs = [(s, tier, nfns, edepth, depth, width) for s in seeds]
+    if not only or only == "when":
+        jobs += [("when", tier, i, depth, width) for i in range(6)]
+    if only == "when":
+        jobs = [j for j in jobs if j[0] == "when"]
+    U.merge(res, U.pmap(_seed_job, jobs))
     res.extra.setdefault("programs", 0)
     res.extra.setdefault("disagreements_checked", 0)
     from props import common_post
